@@ -135,7 +135,7 @@ func c18(c *Ctx) {
 		for _, b := range df.Blocks {
 			for _, in := range b.Instrs {
 				bo, ok := in.(*ssa.BinOp)
-				if !ok || bo.Op != token.NEQ {
+				if !ok || !isEqOrNeq(bo) {
 					continue
 				}
 				fromReg := func(v ssa.Value) bool {
@@ -151,11 +151,11 @@ func c18(c *Ctx) {
 					})
 				}
 				if fromReg(bo.X) && fromReg(bo.Y) {
-					t, _ := cfgx.CondEdges(bo)
-					rets := cfgx.ReturnsReachable(t, nil)
+					_, ne := eqEdges(bo)
+					rets := cfgx.BoolReturnsFrom(ne, 0)
 					reg = len(rets) > 0
 					for _, r := range rets {
-						if b, ok := cfgx.ConstBool(cfgx.ReturnValue(r, 0)); !ok || !b {
+						if !r.NonNil {
 							reg = false
 						}
 					}
@@ -163,10 +163,29 @@ func c18(c *Ctx) {
 				if fromRepo(bo.X) && fromRepo(bo.Y) && !fromReg(bo.X) && firstSegment(bo.X) && firstSegment(bo.Y) {
 					if bo.Referrers() != nil {
 						for _, r := range *bo.Referrers() {
-							if _, ok := r.(*ssa.Return); ok {
+							if _, ok := r.(*ssa.Return); ok && bo.Op == token.NEQ {
 								org = true
 							}
 						}
+					}
+					if !org {
+						// the same decision spelled with branches: unequal orgs always
+						// return true, equal orgs (registries being equal) return false
+						eq, ne := eqEdges(bo)
+						t, f := cfgx.BoolReturnsFrom(ne, 0), cfgx.BoolReturnsFrom(eq, 0)
+						good := len(t) > 0 && len(f) > 0
+						for _, r := range t {
+							if !r.NonNil {
+								good = false
+							}
+						}
+						sawFalse := false
+						for _, r := range f {
+							if r.Nil {
+								sawFalse = true
+							}
+						}
+						org = good && sawFalse
 					}
 				}
 			}
